@@ -159,6 +159,12 @@ static void direct_drive(Fac& fac, vf::Draw& d, vf::Case& c, vf::FacOracle& fo, 
         vl[0] = 1;
     c.cls(std::string("start/") + SK[eigvecs.cols() == 0 ? 0 : sk]);
     Vec v0 = vf::Narrow<S>::mat(vl);
+    {
+        // is the start vector numerically in the null space of the operator? (single precision: see KF-C07-FLOAT)
+        CVecL vr = vf::widen(v0);
+        ld ratio = fo.normOP > 0 && vr.norm() > 0 ? (fo.OP * vr).norm() / (fo.normOP * vr.norm()) : 1;
+        c.feat["start_nullspace_ratio"] = (double) ratio;
+    }
     Eigen::Map<const Vec> v0map(v0.data(), n);
     Index ops = 0;
     fac.init(v0map, ops);
@@ -691,7 +697,8 @@ static std::string match(const vf::Violation& v, const vf::Case& c)
         return "arnoldi_orthogonality_drift";
     // KF-C07-FLOAT: single precision only: a residual whose norm is below ~1e-19 (its square underflows in the unscaled
     // Eigen norm()) is normalised with a wrong norm, so the next basis vector does not have unit length
-    if ((v.kind == "orthonormality" || v.kind == "residual_orthogonality" || v.kind == "f_norm") && c.f("single_precision") > 0 && c.f("min_pos_beta") < 1e-18)
+    if ((v.kind == "orthonormality" || v.kind == "residual_orthogonality" || v.kind == "f_norm") && c.f("single_precision") > 0 &&
+        (c.f("min_pos_beta") < 1e-18 || (c.feat.count("start_nullspace_ratio") && c.f("start_nullspace_ratio") < 1e-12)))
         return "float_norm_underflow";
     return "";
 }
